@@ -131,6 +131,82 @@ PROPS["C07"] = dict(
     assumptions=ASSUME_COMMON,
 )
 
+PROPS["C03"] = dict(
+    units=[dict(name="c03-float", src="props/c03.cpp", deps=["lib/runners.hpp", "lib/pwc.hpp"], flags=["-DVERIF_T=float"]),
+           dict(name="c03-double", src="props/c03.cpp", deps=["lib/runners.hpp", "lib/pwc.hpp"], flags=["-DVERIF_T=double"]),
+           dict(name="c03-ldouble", src="props/c03.cpp", deps=["lib/runners.hpp", "lib/pwc.hpp"], flags=["-DVERIF_T=long double"])],
+    rule="case = integrator (PLAIN / VEGAS / multi-channel on the PWC family) x one of the nine standard engines x "
+         "configuration (1-3 dims, 5 integrand families, 0-3 distributions 1-d/2-d with names incl. empty, leading / "
+         "trailing blanks, 200 chars; VEGAS bins 2..31, alpha 1.5 / 0 / 4/3 / random, default or user grid; 1-5 channels, "
+         "beta, minimum weight, default or user weights with zeros) x 1..5 (thorough 7) iterations of 0..252 calls x "
+         "target precision 0 or 10^-3..1 x text via serialize() or via the file the callback writes; for each case ALL "
+         "2^(n-1) interruption sets are run (inner_evaluations); non-trivial: >= 2 iterations with calls and the state / "
+         "results differ between first and last iteration; distinct = distinct description; one unit per numeric type",
+    quick=dict(shards=3, cases=500),
+    thorough=dict(shards=5, cases=20000),
+    floors={"interruptions>=2": 0.3, "via-file": 0.15, "early-stop": 0.02, "odd-distribution-name": 0.1,
+            "engine:minstd_rand": 0.05, "engine:knuth_b": 0.05, "VEGAS": 0.2, "MULTI": 0.2, "user-state": 0.15},
+    level_text="differential: for generated configurations every subset of the iteration boundaries is an interruption "
+               "set; at each interruption the checkpoint passes through text (serialize() -> make_*_chkpt(istream), or "
+               "the file written by callback_mode::silent_and_write_chkpt) and the final serialize() text must be "
+               "byte-identical to the uninterrupted run's; exhaustive over the 2^(n-1) interruption sets of each "
+               "generated configuration, exploration over configurations",
+    level_note="trusted: the uninterrupted run as reference (its own correctness is C02/C19), text equality as the "
+               "observable; engines are the nine typedefs of <random>; checkpoints are resumed with the same T, engine "
+               "and integrand they were written with",
+    technique="rapidcheck over choice tapes + exhaustive enumeration of interruption sets per case; differential against the uninterrupted run",
+    assumptions=ASSUME_COMMON,
+)
+
+PROPS["C05"] = dict(
+    units=[dict(name="c05", src="props/c05.cpp", fuzz=dict(seconds=120))],
+    rule="case = numeric type x one of the nine standard engines (seeded, advanced by generated discards) x checkpoint "
+         "kind (plain / vegas / multi-channel) x 0..4 results x 0..3 distributions (1..5 x 1..3 bins, names: plain, "
+         "empty, inner / leading / trailing blanks, tab, up to 300 chars); every floating-point field from {1, 0, -0, raw "
+         "bit pattern, max, lowest, denorm_min, min, 1+eps, generated reals}, counters up to 2^64-1, grids 1..4 dims x "
+         "2..40 bins, 1..40 channels; zero-result checkpoints store the first grid / weights; non-trivial: >= 1 result "
+         "and a field that is -0, an extreme or a value not representable in single precision, or an odd name with "
+         "distributions; distinct = distinct description",
+    quick=dict(shards=8, cases=2500),
+    thorough=dict(shards=16, cases=120000),
+    floors={"hard-value": 0.5, "odd-name": 0.1, "zero-results": 0.1, "with-distributions": 0.3,
+            "engine:minstd_rand0": 0.05, "engine:knuth_b": 0.05, "engine:ranlux48": 0.05},
+    level_text="round trip obj -> text -> obj' over generated checkpoints built through the public constructors: every "
+               "public accessor is compared bit for bit (memcmp of the value bytes, 10 for x87 long double), counters "
+               "and names exactly, generator() with operator==, all stored generators through text equality of "
+               "serialize(obj'), the stream must not fail and must be consumed completely; exploration over inputs",
+    level_note="trusted: memcmp on value bytes as equality; robustness against malformed text is not part of C05; "
+               "names contain no newline (documented TODO of the library)",
+    technique="rapidcheck + libFuzzer over choice tapes; round-trip oracle with bitwise accessor comparison",
+    assumptions=ASSUME_COMMON + ["classic locale, default stream flags"],
+)
+
+PROPS["C15"] = dict(
+    units=[dict(name="c15-float", src="props/c15.cpp", deps=["lib/runners.hpp", "lib/pwc.hpp"], flags=["-DVERIF_T=float"]),
+           dict(name="c15-double", src="props/c15.cpp", deps=["lib/runners.hpp", "lib/pwc.hpp"], flags=["-DVERIF_T=double"]),
+           dict(name="c15-ldouble", src="props/c15.cpp", deps=["lib/runners.hpp", "lib/pwc.hpp"], flags=["-DVERIF_T=long double"])],
+    rule="case = integrator x one of the nine standard engines x configuration (as C03: distributions, user grids / "
+         "weights with disabled channels, alpha, beta, minimum weight) x history of 1..8 operations from {run 1-3 "
+         "iterations of 0..122 calls, reload through text, rollback(k) with k in 0..n+1}; after EVERY operation all k in "
+         "0..n+1 are tried on copies (n <= 6; inner_evaluations) incl. resume of the rest; non-trivial: the history "
+         "contains a rollback to 0 < k < n, or a reload before a rollback, or rollback(0) of an adaptive checkpoint with "
+         "user state; distinct = distinct description; one unit per numeric type",
+    quick=dict(shards=3, cases=400),
+    thorough=dict(shards=5, cases=20000),
+    floors={"rollback-inner-k": 0.1, "reload-before-rollback": 0.1, "rollback0-user-state": 0.02, "VEGAS": 0.2, "MULTI": 0.2,
+            "engine:minstd_rand": 0.05},
+    level_text="model-based (stateful) generation: the model is the list of calls of the iterations in the checkpoint; "
+               "after every operation the serialize() text must equal the text recorded after the corresponding prefix "
+               "of one fresh uninterrupted run over the model's list; every k in 0..n+1 is enumerated on copies after "
+               "every step: rollback(k) text equals the prefix text, rollback(n) changes nothing, k > n throws "
+               "std::out_of_range and changes nothing, rollback(k) + resume reproduces the original text; exploration "
+               "over histories, exhaustive over k per visited state",
+    level_note="trusted: the fresh uninterrupted run as reference and text identity as observable (the text contains "
+               "every result, grid, weight and all generators)",
+    technique="rapidcheck stateful (model-based) histories over choice tapes + enumeration of all k per state; reference = fresh run over the model's list",
+    assumptions=ASSUME_COMMON,
+)
+
 NOT_APPLICABLE = {}
 
 ENGINES = [
